@@ -19,7 +19,18 @@ pub fn dict() -> &'static Vec<String> {
 
 pub const BLANKS: &[&str] = &[" ", "\t", "\n", "\r", "  ", "\r\n", " \t "];
 
+pub fn numdict() -> &'static Vec<String> {
+    static D: std::sync::OnceLock<Vec<String>> = std::sync::OnceLock::new();
+    D.get_or_init(|| {
+        std::env::var("FPVERIF_DICT").ok().and_then(|p| std::fs::read_to_string(format!("{}.nums", p)).ok())
+            .map(|t| t.lines().map(|l| l.trim().to_string()).filter(|l| !l.is_empty()).collect())
+            .unwrap_or_default()
+    })
+}
+
 pub fn rand_number(rng: &mut Rng) -> String {
+    let nd = numdict();
+    if !nd.is_empty() && rng.chance(1, 4) { return nd[rng.below(nd.len())].clone(); }
     match rng.below(8) {
         0 => "0".into(),
         1 => rng.below(10).to_string(),
@@ -250,10 +261,10 @@ fn leaf_c09(rng: &mut Rng) -> Expression {
     match rng.below(6) {
         0 => E::Test(Test::True),
         1 => E::Test(Test::False),
-        2 => E::Test(Test::Name("foo.txt".into())),
+        2 => E::Test(Test::Name(if rng.chance(1, 4) { rand_word(rng) } else { "foo.txt".into() })),
         3 => E::Action(Action::Print),
         4 => E::Action(Action::Quit),
-        _ => E::Action(Action::FilePrint("out.txt".into())),
+        _ => E::Action(Action::FilePrint(if rng.chance(1, 3) { rand_word(rng) } else { "out.txt".into() })),
     }
 }
 
@@ -268,7 +279,7 @@ fn leaf_actions(rng: &mut Rng, no_direct: bool) -> Expression {
     use Expression as E;
     let file = || -> String { ["A", "B", "C"][0].to_string() };
     let _ = file;
-    let f = ["A", "B", "C", "out.txt"][rng.below(4)].to_string();
+    let f = if rng.chance(1, 4) { rand_word(rng) } else { ["A", "B", "C", "out.txt"][rng.below(4)].to_string() };
     match rng.below(14) {
         0 => E::Action(Action::Print),
         1 => E::Action(Action::PrintNull),
@@ -304,11 +315,19 @@ pub fn rand_cmp_val<T>(rng: &mut Rng, v: T) -> Comparison<T> {
     match rng.below(3) { 0 => Comparison::GreaterThan(v), 1 => Comparison::LesserThan(v), _ => Comparison::Equal(v) }
 }
 
+fn dict_num(rng: &mut Rng) -> Option<u64> {
+    let nd = numdict();
+    if nd.is_empty() || !rng.chance(1, 4) { return None; }
+    nd[rng.below(nd.len())].parse::<u64>().ok()
+}
+
 pub fn rand_u32(rng: &mut Rng) -> u32 {
+    if let Some(v) = dict_num(rng) { if v <= u32::MAX as u64 { return v as u32; } }
     match rng.below(5) { 0 => 0, 1 => 1, 2 => u32::MAX, 3 => rng.below(1000) as u32, _ => rng.next() as u32 }
 }
 
 pub fn rand_u64(rng: &mut Rng) -> u64 {
+    if let Some(v) = dict_num(rng) { return v; }
     match rng.below(6) { 0 => 0, 1 => 1, 2 => u64::MAX, 3 => rng.below(1000) as u64, 4 => rng.next() % (1 << 40), _ => rng.next() }
 }
 
@@ -321,7 +340,7 @@ pub fn rand_size(rng: &mut Rng) -> Size {
 }
 
 pub fn rand_time(rng: &mut Rng) -> TimeSpec {
-    let n = match rng.below(4) { 0 => 0, 1 => 1, 2 => rng.below(400) as u64, _ => rng.below(100000) as u64 };
+    let n = match dict_num(rng) { Some(v) if v < 1_000_000 => v, _ => match rng.below(4) { 0 => 0, 1 => 1, 2 => rng.below(400) as u64, _ => rng.below(100000) as u64 } };
     match rng.below(4) { 0 => TimeSpec::Second(n), 1 => TimeSpec::Minute(n), 2 => TimeSpec::Hour(n), _ => TimeSpec::Day(n) }
 }
 
